@@ -183,7 +183,7 @@ def nrt_scenario(ctx, j):
                 for i in range(2):
                     obsB.append((c.seconds, c.beats))
                     execd.append(main.elapsed_time())
-                    if i == 1 and j.get('tempo_change') and j['inner'] == 'tempo':
+                    if i == 1 and j.get('tempo_change') in (1, 2) and j['inner'] == 'tempo':
                         # beats and seconds stay continuous; later deltas run at the new tempo
                         if j['tempo_change'] == 2:
                             c.etempo(T * 2)      # in NRT the elapsed time is the logical time: same closed form
@@ -211,6 +211,10 @@ def nrt_scenario(ctx, j):
                             c.sched(ds, stm.Routine(body_b))
                         else:
                             stm.Routine(body_b).play(c, 0)
+                    if i == 2 and j.get('tempo_change') == 3:
+                        # ANOTHER routine changes the tempo while the inner routine is pending (or over): the inner
+                        # routine still wakes at its beats
+                        info['clock'].tempo = T * 2
                     yield dA[i]
                 obsA.append(clk.SystemClock.seconds)
                 execd.append(main.elapsed_time())
@@ -238,8 +242,9 @@ def nrt_scenario(ctx, j):
     for k, (sec, beats) in enumerate(obsB):
         ctx.prove(R(beats) == accb, f'NRT: inner routine beats at resumption {k} is not start + sum of deltas',
                   data('closed-form-inner'))
-        ctx.prove(R(sec) == accs, f'NRT: inner routine seconds at resumption {k} is not start + deltas / tempo',
-                  data('closed-form-inner'))
+        if j.get('tempo_change') != 3:
+            ctx.prove(R(sec) == accs, f'NRT: inner routine seconds at resumption {k} is not start + deltas / tempo',
+                      data('closed-form-inner'))
         if k < 2:
             accb = accb + R(dB[k])
             accs = accs + R(dB[k]) / (tempo * 2 if (k == 1 and j.get('tempo_change') and j['inner'] == 'tempo') else tempo)
@@ -292,7 +297,7 @@ def _replay_nrt(j, g):
         for i in range(2):
             obsB.append((c.seconds, c.beats))
             execd.append(main.elapsed_time())
-            if i == 1 and j.get('tempo_change') and j['inner'] == 'tempo':
+            if i == 1 and j.get('tempo_change') in (1, 2) and j['inner'] == 'tempo':
                 if j['tempo_change'] == 2:
                     c.etempo(T * 2)
                 else:
@@ -313,6 +318,8 @@ def _replay_nrt(j, g):
                     c.sched(ds, stm.Routine(body_b))
                 else:
                     stm.Routine(body_b).play(c, 0)
+            if i == 2 and j.get('tempo_change') == 3:
+                info['clock'].tempo = T * 2
             yield dA[i]
         obsA.append(clk.SystemClock.seconds)
         execd.append(main.elapsed_time())
@@ -338,8 +345,9 @@ def _replay_nrt(j, g):
                (f' with sched({ds})' if by_sched else '') + f' starts at {obsB[0][0]}, expected {startB}'
     accb, accs = info['beats'] + (ds if by_sched else 0.0), startB
     for k, (sec, beats) in enumerate(obsB):
-        if not tol(beats, accb) or not tol(sec, accs):
-            return f'NRT: inner routine resumption {k} at {sec}s / beat {beats}, expected {accs}s / beat {accb}'
+        if not tol(beats, accb) or (j.get('tempo_change') != 3 and not tol(sec, accs)):
+            return f'NRT: inner routine resumption {k} at {sec}s / beat {beats}, expected ' + \
+                   (f'{accs}s / ' if j.get('tempo_change') != 3 else '') + f'beat {accb}'
         if k < 2:
             accb += dB[k]
             accs += dB[k] / (tempo * 2 if (k == 1 and j.get('tempo_change') and j['inner'] == 'tempo') else tempo)
@@ -438,7 +446,7 @@ def main(tier, seed):
            for T in ([2.0] if tier == 'quick' else [2.0, 0.5]) for o in ((0, 1) if i == 'tempo' else (0,))
            for st in ('play', 'sched')]
     nrt += [dict(mode='nrt', inner='tempo', tempo=2.0, offset=o, start='play', tempo_change=tc) for o in (0, 1)
-            for tc in (1, 2)]
+            for tc in (1, 2, 3)]
     rt += [dict(r, start='sched') for r in rt if r['child'] != 'none' and not r['other']]
     for r in run_jobs('vf.props.c05', 'job', rt, 'rt'):
         chk.add('rt', r)
